@@ -1266,6 +1266,8 @@ class Interp:
 
     def contains(self, container, x, node):
         if isinstance(container, RangeV):
+            if isinstance(x, Const) and (x.v is None or isinstance(x.v, str)):
+                return False                     # ``None in range(..)`` is simply False
             if isinstance(x, Int):
                 return self.cmp_int(container.lo, x, "<=", node) and self.cmp_int(x, container.hi, "<", node)
             raise Unsupported(node, "membership of %r in a range" % (x,))
